@@ -93,7 +93,7 @@ Meaningful(d) == /\ (d.w1 = "none" => d.w2 = "none")
                  /\ (d.w1 = "msg" => d.w2 = "none")                      \* control flow is not allowed inside msg
                  /\ (d.depth > 0 => d.f = "print")
                  /\ ~(d.f = "pluralsubject" /\ "msg" \in {d.w1, d.w2})   \* no msg inside msg
-                 /\ ~(d.f \in {"ifcond", "forlist", "switchsubject", "pluralsubject"} /\ "msg" \in {d.w1, d.w2})
+                 /\ ~(d.f \in {"ifcond", "forlist", "switchsubject", "pluralsubject", "letvalue"} /\ "msg" \in {d.w1, d.w2})
 
 VARIABLES d, phase, bottomLine, frameFile, frameLine, reported
 
